@@ -15,7 +15,9 @@ DEF_OPS = {"cal", "ucal", "defname", "named", "reset", "dual", "dual2", "num", "
 class Prop:
     def __init__(self, rule, classify, mode="exact", modes=None, gen=True, regenerate=None,
                  exhaustive=None, trusted=None, assumptions=None, rtol=1e-9, atol_rel=1e-12,
-                 finding_key=None, oracle=None, oracle_finish=None, def_ops=None, allow_badop=False):
+                 finding_key=None, oracle=None, oracle_finish=None, def_ops=None, allow_badop=False,
+                 compare_op=None):
+        self.compare_op = compare_op
         self.allow_badop = allow_badop
         self.rule = rule
         self._classify = classify
@@ -160,3 +162,44 @@ PROPS["C06"] = Prop(
         "Rust's Unicode to_lowercase is modelled as ASCII lower-casing",
         "the built-in tables reach the model through `defname` lines dumped from the running code"],
     assumptions=_dates_assume, oracle=C06Oracle(), allow_badop=True)
+
+
+# ---------------------------------------------------------------------------------------------
+# C07
+
+import gen_c07
+
+
+def _cls_c07(t, impl):
+    op = t[0]
+    if op in ("rulehol", "partialhol"):
+        return "%s:%s=%s" % (op, t[1], impl), impl == "1"
+    if op == "fixbus":
+        return "fixbus:%s:pub=%s" % (t[1], t[3]), True
+    return op, True
+
+
+def _cmp_c07(t, il, ml):
+    if t[0] == "partialhol":
+        # the documented rules only say which days MUST be holidays
+        return not (ml == "1" and il != "1")
+    return None
+
+
+def _key_c07(t, il, ml):
+    if t[0] in ("rulehol", "partialhol", "fixbus"):
+        return "%s:%s:%s" % (t[0], t[1], t[2])
+    return " ".join(t)
+
+
+PROPS["C07"] = Prop(
+    rule="exhaustive: every built-in name x every weekday date 1970-01-01..2200-12-31 (every date for 'all') against "
+         "the published rules evaluated by the model; every documented name; every date of each of the nine fixing "
+         "periods against the publication dates. non-trivial = a holiday / a date of a fixing period",
+    classify=_cls_c07, exhaustive=lambda tier: True, regenerate=gen_c07.regenerate, compare_op=_cmp_c07,
+    finding_key=_key_c07,
+    trusted=["translator by execution: harness `dump tables` (get_calendar_by_name + is_weekday/is_holiday on all 84371 "
+             "dates), docstring and CSV parsers in bin/lib/gen_c07.py",
+             "transcription of the pandas rule scripts (lean/RateslibModel/Model/Holidays.lean) is part of the specification",
+             "chrono's weekday/date arithmetic (cross-checked exhaustively by C08's run)"],
+    assumptions=["holidays outside 1970-2200 are outside the property", "times of day not modelled"])
